@@ -549,6 +549,12 @@ func (m *Machine) exec(fr *frame, in ssa.Instruction) {
 				panic(m.fail("index out of range [%d] with length %d", idx, b.Len()))
 			}
 			fr.env[x] = Ptr{P: b.At(idx)}
+		case Bytes:
+			// &b[i] on the []byte view of an abstract string: decidable inside its literal prefix
+			v := m.strIndex(b.S, int64(idx))
+			slot := new(Value)
+			*slot = v
+			fr.env[x] = Ptr{P: slot}
 		case Ptr:
 			arr, ok := (*m.deref(b)).(Array)
 			if !ok {
